@@ -1,5 +1,5 @@
 """C11 / C18: contracts for the memory version family, federated newest-version selection and de-duplication."""
-import ast
+import ast, os
 import z3
 from vf.pyvc import engine as E
 from vf.pyvc.engine import Val, Exc, Unsupported, NONE, Int, Bool, Str, Rec, Opt, SetV, Seq, S, sat
@@ -482,3 +482,53 @@ def related_to_contract(variant):
 
 
 PROP_ID = z3.Function('prop.id', E.S, E.S)
+
+
+# ------------------------------------------------------------------ filesystem._timestamp2filename: distinct serialized instants get distinct file names (C11: "no addition silently
+# replaces or loses a different version")
+def filename_obligations(chk, src_root):
+    """The function is `format_datetime` (proved in C15: 4-2-2T2:2:2 civil fields of the UTC instant, then '.' and the fraction digits the precision asks for, then 'Z') followed by
+    the removal of a set of separator characters.  Call-site obligations (syntactic, re-read from the source): the text comes from format_datetime of the argument, the removed
+    class holds every separator the format uses and no digit.  Lemma (z3, one case per fraction length): a 14-digit prefix followed by a fraction of known length decomposes
+    uniquely, so equal names mean equal civil second and equal fraction digits -- hence equal serialized instants (civil calendar fields are a bijection on seconds: assumed)."""
+    import re as _re
+    from vf.pyvc.contract import Obligation
+    rel = 'stix2/datastore/filesystem.py'
+
+    def ob(name, verdict, detail=''):
+        o = Obligation('datastore.filesystem._timestamp2filename', name, 'call-requires', [], z3.BoolVal(bool(verdict)), True)
+        o.result = 'discharged' if verdict else ('undecided' if verdict is None else 'failed'); o.backend = 'trivial'; o.detail = detail
+        chk.lemmas.append(o)
+        if verdict is None: chk.undecided_notes.append(f'_timestamp2filename: obligation not decidable on the current source: {name} {detail}')
+        elif not verdict: chk.violation('datastore.filesystem._timestamp2filename#' + name.split(':')[0], f'call-site obligation fails: {name} {detail}', {'obligation': name}, no_input=True)
+    try:
+        tree = ast.parse(open(os.path.join(src_root, rel)).read()); fn = E.find_def(tree, '_timestamp2filename')
+    except (Unsupported, OSError) as u:
+        chk.undecided_notes.append(f'_timestamp2filename: {u}'); return
+    calls = [c for c in ast.walk(fn) if isinstance(c, ast.Call)]
+    fmt = [c for c in calls if ast.unparse(c.func).split('.')[-1] == 'format_datetime']
+    ob('the name is derived from format_datetime(<the timestamp>)', True if (len(fmt) == 1 and len(fmt[0].args) == 1 and not fmt[0].keywords) else None, f'{[ast.unparse(c) for c in fmt]}')
+    subs = [c for c in calls if ast.unparse(c.func) == 're.sub' and len(c.args) == 3 and isinstance(c.args[0], ast.Constant) and isinstance(c.args[1], ast.Constant)]
+    if len(subs) != 1: ob('separators are removed by one re.sub with literal pattern and replacement', None, f'{len(subs)} candidates')
+    else:
+        pat, repl = subs[0].args[0].value, subs[0].args[1].value
+        try: rx = _re.compile(pat)
+        except _re.error: rx = None
+        removed = {chr(c) for c in range(128) if rx is not None and rx.fullmatch(chr(c))}
+        ob('the removed characters are replaced by nothing, include every separator of the timestamp format (- T : . Z) and no digit',
+           repl == '' and {'-', 'T', ':', '.', 'Z'} <= removed and not (removed & set('0123456789')), f'pattern {pat!r} removes {sorted(removed)}, replacement {repl!r}')
+    # unique decomposition: name = prefix (exactly 14 digits) ++ fraction digits (0..6 of them, value v < 10^len); two names are equal strings iff they have the same length and value
+    p1, p2, v1, v2 = z3.Ints('prefix1 prefix2 frac1 frac2')
+    for l1 in range(7):
+        for l2 in range(7):
+            dom = z3.And(p1 >= 0, p1 < 10**14, p2 >= 0, p2 < 10**14, v1 >= 0, v1 < 10**l1, v2 >= 0, v2 < 10**l2)
+            same_text = z3.And(z3.BoolVal(l1 == l2), p1 * 10**l1 + v1 == p2 * 10**l2 + v2)        # equal length (14 + len) and equal digits
+            if l1 != l2: continue          # different lengths: different texts, nothing to show
+            chk.lemma(f'file name: 14-digit prefix + {l1} fraction digits decomposes uniquely (equal names => equal second and equal fraction)',
+                      z3.ForAll([p1, p2, v1, v2], z3.Implies(z3.And(dom, same_text), z3.And(p1 == p2, v1 == v2))))
+    # fraction digits are the microsecond value without trailing zeros: (value, length) determines the microseconds
+    f1, f2, a, b = z3.Ints('us1 us2 a b')
+    for ln in range(7):
+        chk.lemma(f'file name: {ln} fraction digits without trailing zeros determine the microseconds',
+                  z3.ForAll([f1, f2, a], z3.Implies(z3.And(0 <= f1, f1 < 10**6, 0 <= f2, f2 < 10**6, f1 == a * 10**(6 - ln), f2 == a * 10**(6 - ln)), f1 == f2)))
+    chk.assume('civil calendar fields (year..second) of the UTC instant are a bijection on whole seconds for years 0001-9999; format_datetime as proved in C15 (years are written with four digits)')
